@@ -132,6 +132,10 @@ impl Geometry {
         let clip = |x: f64| x.round().clamp(-32768.0, 32767.0) as i16;
         let mut wires = Vec::new();
         let mut chips: BTreeMap<(usize, u8), Vec<(u16, Vec<i16>)>> = BTreeMap::new();
+        // pad rows in a random order, so that consecutive avalanches jump between the z regions of the
+        // drift tables and the first one is anywhere (a look-up that remembers the previous region)
+        let mut row_perm: Vec<usize> = (0..78).collect();
+        rng.shuffle(&mut row_perm);
         for k in 0..len {
             let w = (start + k) % 256;
             let pos = TpcWirePosition::try_from(w).unwrap();
@@ -150,7 +154,7 @@ impl Geometry {
             // a pad cloud in the wire's column at the same time bin, so that the deconvolved wire
             // amplitude becomes observable through an avalanche
             let col = hooks::verif_wire_to_pad_column(w);
-            let row0 = 8 + 7 * (k % 78);
+            let row0 = 8 + 7 * row_perm[k % 78];
             for (d, f) in [0.45, 1.0, 0.35].iter().enumerate() {
                 let r = row0 + d;
                 let Some(&(pboard, chip, readout)) = self.pad_src.get(&(col, r)) else { continue };
